@@ -92,6 +92,7 @@ type c15State struct {
 	idx         []byte
 	dirty       map[string]bool // repositories that received a successful write during the case
 	uncertain   map[string]bool // session ids whose liveness this oracle no longer knows
+	sessState   map[string]string // session id -> state token of the Location the server handed out last
 }
 
 // certainlyAbsent: the digest cannot be in the repository (never pushable from the generator's bodies, or the
@@ -113,7 +114,7 @@ var c15Cfg = []byte("{}")
 
 // c15Prepare builds one of the prepared states.
 func c15Prepare(t *rapid.T) (*c15State, func()) {
-	s := &c15State{healthy: map[string]bool{}, corrupt: map[string]bool{}, present: map[string]bool{}, manifests: map[string]bool{}, dirty: map[string]bool{}, uncertain: map[string]bool{}}
+	s := &c15State{healthy: map[string]bool{}, corrupt: map[string]bool{}, present: map[string]bool{}, manifests: map[string]bool{}, dirty: map[string]bool{}, uncertain: map[string]bool{}, sessState: map[string]string{}}
 	s.kind = rapid.SampledFrom([]string{"empty", "populated", "populated", "populated-sessions", "read-only", "dir-corrupt-legacy", "mem-over-root", "manifest-blobs-deleted"}).Draw(t, "state")
 	s.dirStore = rapid.Bool().Draw(t, "dirStore") || s.kind == "dir-corrupt-legacy" || s.kind == "read-only" || s.kind == "mem-over-root"
 	store := config.StoreMem
@@ -184,6 +185,7 @@ func c15Prepare(t *rapid.T) (*c15State, func()) {
 			must(r, 202, "session")
 			lu, _ := url.Parse(r.hdr.Get("Location"))
 			s.sessions = append(s.sessions, path.Base(lu.Path))
+			s.sessState[path.Base(lu.Path)] = lu.Query().Get("state")
 		}
 		r := doReq(srv, "POST", "/v2/r1/blobs/uploads/", nil, nil)
 		lu, _ := url.Parse(r.hdr.Get("Location"))
@@ -247,8 +249,8 @@ func c15Gen(t *rapid.T, s *c15State) c15Req {
 	}
 	digs := append(append([]string{}, s.digests...), "sha256:abc", "sha256:"+strings.Repeat("A", 64), "md5:d41d8cd98f00b204e9800998ecf8427e", "sha256", "sha256:../../x", "sha256:"+strings.Repeat("0", 64), "sha384:"+strings.Repeat("0", 96), "sha256:%00", "a:b:c")
 	tags := append(append([]string{}, s.tags...), ".bad", strings.Repeat("t", 129), "a:b", "sha256-"+strings.Repeat("a", 64), "_", "%20")
-	sids := append(append(append([]string{}, s.sessions...), s.dead...), "nosuch", "..", "a/b", "", "%2e%2e", strings.Repeat("s", 300))
-	var p string
+	sids := append(append(append(append([]string{}, s.sessions...), s.sessions...), s.dead...), "nosuch", "..", "a/b", "", "%2e%2e", strings.Repeat("s", 300))
+	var p, sid string
 	switch rapid.IntRange(0, 8).Draw(t, "endpoint") {
 	case 0:
 		p = "/v2/" + repo + "/manifests/" + rapid.SampledFrom(append(tags, digs...)).Draw(t, "ref")
@@ -257,7 +259,8 @@ func c15Gen(t *rapid.T, s *c15State) c15Req {
 	case 2:
 		p = "/v2/" + repo + "/blobs/uploads/"
 	case 3, 4:
-		p = "/v2/" + repo + "/blobs/uploads/" + rapid.SampledFrom(sids).Draw(t, "session")
+		sid = rapid.SampledFrom(sids).Draw(t, "session")
+		p = "/v2/" + repo + "/blobs/uploads/" + sid
 	case 5:
 		p = "/v2/" + repo + "/tags/list"
 	case 6:
@@ -301,6 +304,9 @@ func c15Gen(t *rapid.T, s *c15State) c15Req {
 			qs.Add(name, "second")
 		}
 	}
+	if tok, ok := s.sessState[sid]; ok && rapid.Bool().Draw(t, "currentStateToken") {
+		qs.Set("state", tok) // the token of the Location the server handed out last: only the rest of the request can be wrong
+	}
 	q.target = p
 	if len(qs) > 0 {
 		q.target += "?" + qs.Encode()
@@ -330,10 +336,27 @@ func c15Gen(t *rapid.T, s *c15State) c15Req {
 		q.opt.truncate = true // the client stops sending half way: its mistake, not the server's
 		q.odd = true
 	}
+	if tok, ok := s.sessState[sid]; ok && rapid.IntRange(0, 2).Draw(t, "completionWithCurrentToken") == 0 {
+		q.method = "PUT"
+		// a completing PUT that is right in everything but, possibly, the digest
+		qs.Set("state", tok)
+		qs.Set("digest", rapid.SampledFrom(append(append([]string{}, s.digests...), "sha256:"+strings.Repeat("0", 64), "sha512:"+strings.Repeat("0", 128), dig("sha256", q.body), dig("sha512", q.body))).Draw(t, "completionDigest"))
+		delete(q.opt.hdr, "Content-Range")
+		q.target = p + "?" + qs.Encode()
+	}
 	if rapid.IntRange(0, 9).Draw(t, "forwarded") == 0 {
 		q.opt.hdr["X-Forwarded-For"] = rapid.SampledFrom([]string{"10.0.0.1", "", ", ", "::1, 10.0.0.2"}).Draw(t, "xff")
 	}
 	return q
+}
+
+// c15Query reads the query of a request target.
+func c15Query(target string) url.Values {
+	u, err := url.ParseRequestURI(target)
+	if err != nil {
+		return url.Values{}
+	}
+	return u.Query()
 }
 
 type c15ErrDoc struct {
@@ -524,6 +547,20 @@ func c15Property(t *rapid.T, st *Stats) {
 					}
 					classes["cond:range-invalid"] = true
 				}
+				// with the current state token, a range the session accepts (else 416) and a well-formed digest, the one
+				// thing left that a complete PUT can be refused for with 400 is that the content does not hash to the digest
+				qv := c15Query(q.target)
+				if q.method == "PUT" && r.code == 400 && !q.opt.truncate && len(qv["state"]) == 1 && qv["state"][0] == s.sessState[rt.arg] && len(qv["digest"]) == 1 && c04DigRE.MatchString(qv["digest"][0]) {
+					if !hasCode("DIGEST_INVALID") {
+						fail("code-digest-mismatch", "PUT completing session %s with its current state token and digest %s, which the content does not hash to: status %d body %q, want 400 DIGEST_INVALID (\"provided digest did not match uploaded content\")", trunc([]byte(rt.arg), 40), short(qv["digest"][0]), r.code, trunc(r.body, 160))
+					}
+					classes["cond:digest-mismatch-session"] = true
+				}
+				if r.code == 202 {
+					if lu, err := url.Parse(r.hdr.Get("Location")); err == nil {
+						s.sessState[rt.arg] = lu.Query().Get("state")
+					}
+				}
 				// the session may be consumed by this request
 				if r.code >= 400 && q.method == "PUT" {
 					s.uncertain[rt.arg] = true // refused before or after the data was taken: unknown to this oracle (C08 decides)
@@ -546,6 +583,18 @@ func c15Property(t *rapid.T, st *Stats) {
 					}
 				}
 			}
+		case rt.endpoint == "uploads" && q.method == "POST" && r.code == 400 && !reserved && !corruptTarget && !s.readOnly && c15NameRE.MatchString(rt.repo) && !q.opt.truncate:
+			// a monolithic upload (or a digest announced for a session): every 400 left is about the digest - it is
+			// malformed, of an unsupported algorithm, or the content does not hash to it
+			qv := c15Query(q.target)
+			if len(qv["digest"]) == 1 && len(qv["mount"]) == 0 {
+				if !hasCode("DIGEST_INVALID") {
+					fail("code-digest-mismatch", "POST upload with digest %q and a %d byte body: status %d body %q, want 400 DIGEST_INVALID", trunc([]byte(qv["digest"][0]), 80), len(q.body), r.code, trunc(r.body, 160))
+				}
+				if c04DigRE.MatchString(qv["digest"][0]) {
+					classes["cond:digest-mismatch"] = true
+				}
+			}
 		case s.readOnly && !get && (q.method == "PUT" || q.method == "POST" || q.method == "DELETE" || q.method == "PATCH") && r.code == 403:
 			if !hasCode("DENIED") {
 				fail("code-denied", "read-only refusal without code DENIED: %q", trunc(r.body, 120))
@@ -559,6 +608,7 @@ func c15Property(t *rapid.T, st *Stats) {
 		if rt.endpoint == "uploads" && q.method == "POST" && r.code == 202 && rt.repo == "r1" {
 			if lu, err := url.Parse(r.hdr.Get("Location")); err == nil {
 				s.sessions = append(s.sessions, path.Base(lu.Path))
+				s.sessState[path.Base(lu.Path)] = lu.Query().Get("state")
 			}
 		}
 		if (r.code == 201 || r.code == 202) && (q.method == "PUT" || q.method == "POST" || q.method == "DELETE" || q.method == "PATCH") {
